@@ -17,6 +17,15 @@ CLAIMED = {
              "PDG limit formula transcribed by hand in PhspMath.v.",
         technique="Coq proof over regenerated SymPy trees (field/nra) + exact differential harness",
         design="6/C20"),
+    "C08": dict(
+        text="Coq theorems, for all time-like momenta with non-zero three-momentum / all |beta|<1 / all angles, about the matrices "
+             "regenerated from /repo on every run: as_explicit() entries and the per-event symbolic meaning of the lambdify-generated "
+             "NumPy code with cse on and off (L^T eta L = eta, det = 1, L00 >= 1, B(p)p = (m,0,0,0), B(-p)B(p) = 1, B(0,0,pz) = Bz(pz/E), "
+             "R(a)R(b) = R(a+b), generated code = explicit matrix); numeric harness over cse x batch sizes as search.",
+        note="Coq kernel; stdlib Reals axioms; ser.py; symexec.py (symbolic execution of generated NumPy source, own einsum/select shims); "
+             "DenR.v/Mat.v semantics; floating point and batch-pointwise-ness only exercised numerically.",
+        technique="Coq proof (field + relation elimination) over regenerated matrices and symbolically executed NumPy code",
+        design="6/C08"),
 }
 
 NOT_YET = "not built yet in this session (design in DESIGN.md section 6); no check is registered, nothing is claimed"
